@@ -22,6 +22,19 @@ view's packed bytes; obj[name], obj.name, the old names, las.points[name], las.p
 rotating subset of the routes), and in a systematic sweep of every format x sub-field x adversarial sibling bits (all ones, all
 zeros, alternating, the bytes - so the higher siblings - ordered opposite to the field, random), followed by assignments of
 adversarial values to every sibling of the byte (all routes). The routes the model has are compared with the implementation's.
+LAYOUTS (round 6; Model/SubFieldRec.v `resolve`, `xread`, `xassign_sub`): every generator above also draws point layouts WITH
+EXTRA DIMENSIONS named like a sub-field of the format, like an old laspy alias of one, like a sub-field of the other format
+family (legal: the packed array has no field of that name), of every type, scaled or not - in memory, read from a file (the
+extra bytes VLR), as the source and the destination of copy_fields_from / convert / from_point_record: every assignment and
+read route by NAME must still address the bits of the packed byte, out-of-range values must still be refused, the extra
+bytes (and every other dimension) must keep their values. The lookup of the model is compared with what rec[name] hands out.
+KEPT HANDLES (round 6): worlds also contain the operations of a LasData / record that are not assignments but might rebind or
+reallocate the array: update_header, LasData.write (also after the header got other offsets / scales: the writer rescales
+X, Y, Z in place and puts them back), LasWriter.write_points by a writer with other scales / offsets (also with a failing
+destination), change_scaling, add / remove_extra_dim(s), resize. What the unchanged code does is pinned in OWorld: the first
+group leaves the array where it is - SubFieldViews, slices, records taken EARLIER stay attached and an assignment through
+them reads back in the LasData (and the other way round); the second gives the object a new array - earlier handles stay
+on the old memory. Judged after every step, on every live object.
 Search: the property on the implementation (a Python statement of the expected bytes, no model involved)."""
 import json
 
@@ -33,6 +46,8 @@ DRIVER = "c09"
 ASSUMPTIONS = ["numpy resolves an index expression (slice, mask, index list, integer) to positions; the model receives the positions",
                "a slice of a numpy array (and of a SubFieldView / point record built on it) is a view: the harness resolves a chain of slices to positions with Python's range(n)[slice], the model composes them",
                "read routes: the model's conversions (wrap_int, as_bool) and reductions (list_max, list_min, list_sum, unique) are numpy's astype / max / min / sum / unique on the unpacked uint8 values; the correspondence compares them on every case, the oracle states them in Python integers",
+               "layouts: an extra dimension is only ever named by a name that is not a field of the array of its format (numpy refuses a second field of one name); the extra bytes are 'other dimensions' for the model (it sees the packed columns and the list of field names)",
+               "kept handles: which LasData / record operation keeps the array in place (write, rescaling write, update_header, change_scaling) and which rebinds it (add / remove extra dimensions, resize, growth) is read off the unchanged code and pinned in OWorld; X, Y, Z after change_scaling are taken from the implementation (not this property's subject)",
                "worlds: which API route gives a view and which gives memory of its own is read off the unchanged code and pinned in OWorld (harness) / the WSlice-WGather-WNew choice of the model command; two mmaps of one file and the file are one memory (MAP_SHARED, Linux page cache); a reader sees the file as it was when it was opened"]
 
 
@@ -53,9 +68,101 @@ def values(ctx):
     return sorted(set(base))
 
 
+# ---------------------------------------------------------------------------------------------------------------------
+# round 6: LAYOUTS - a point format is an id (int) or an id with extra dimensions, written "<id>+<name>:<type>[:s]+..."
+# (":s" = a scaled extra dimension). An extra dimension may be named like a sub-field of the format, like an old laspy alias
+# of one, or like a sub-field of the other format family: legal (the packed record has no FIELD of that name) - the name
+# still addresses the bits of the packed byte (PackedPointRecord.__getitem__: sub-field table first), the extra bytes are
+# reached through rec.array[name] only. Everything below that takes `fmt` takes a layout.
+# ---------------------------------------------------------------------------------------------------------------------
+EXTRA_TYPES = ["uint8", "uint16", "int32", "float64", "uint16", "uint8", "int8", "uint64"]
+
+
+def base_fmt(fmt):
+    return fmt if isinstance(fmt, int) else int(str(fmt).split("+")[0])
+
+
+def extras_of(fmt):
+    """[(name, type, scaled)]"""
+    if isinstance(fmt, int):
+        return []
+    out = []
+    for tok in str(fmt).split("+")[1:]:
+        parts = tok.split(":")
+        out.append((parts[0], parts[1], len(parts) > 2))
+    return out
+
+
+def layout(base, extras):
+    extras = list(extras)
+    if not extras:
+        return int(base)
+    return "+".join([str(int(base))] + [f"{n}:{t}" + (":s" if sc else "") for n, t, sc in extras])
+
+
+def extra_params(fmt, only=None):
+    import laspy
+    return [laspy.ExtraBytesParams(n, t, scales=np.array([0.5]), offsets=np.array([10.0])) if sc else laspy.ExtraBytesParams(n, t)
+            for n, t, sc in (extras_of(fmt) if only is None else only)]
+
+
+def point_format(fmt):
+    """a NEW PointFormat object of the layout"""
+    import laspy
+    pf = laspy.PointFormat(base_fmt(fmt))
+    for prm in extra_params(fmt):
+        pf.add_extra_dimension(prm)
+    return pf
+
+
+def las_of(fmt):
+    """an empty LasData of the layout (laspy.create, then the header is given the extra dimensions)"""
+    import laspy
+    las = laspy.create(point_format=base_fmt(fmt))
+    if extras_of(fmt):
+        las.header.add_extra_dims(extra_params(fmt))
+        las.__dict__["_points"] = laspy.ScaleAwarePointRecord.zeros(0, header=las.header)
+    return las
+
+
+def clash_names(base):
+    """names an extra dimension may take that meet the sub-field lookup: the sub-fields of the format, their old laspy
+    aliases, sub-fields of the other family, a neutral name - minus the names that are fields of the array (numpy refuses
+    a second field of one name)"""
+    tab, _ = fmt_table(base)
+    names = [nm for nm, _, _ in tab]
+    names += [OLD_NAMES[nm] for nm in names if nm in OLD_NAMES]
+    other, _ = fmt_table(0 if base >= 6 else 6)
+    names += [nm for nm, _, _ in other if nm not in names]
+    fields = set(_dtype(base).names)
+    return [nm for nm in names if nm not in fields]
+
+
+def gen_extras(rng, base, must=None):
+    """0-3 extra dimensions for a layout of format `base`; must = a name that has to be among them"""
+    names = clash_names(base)
+    k = rng.choice([1, 1, 2, 3])
+    picked = ([must] if must else []) + rng.sample([nm for nm in names if nm != must], k)
+    picked = picked[:3]
+    if rng.random() < 0.5:
+        picked.insert(rng.randrange(len(picked) + 1), "quality")
+    return [(nm, rng.choice(EXTRA_TYPES), rng.random() < 0.15) for nm in picked]
+
+
+def gen_layout(rng, base=None, p=0.25):
+    base = rng.randrange(11) if base is None else base
+    return layout(base, gen_extras(rng, base)) if rng.random() < p else base
+
+
+def fits(extras, base):
+    """the extra dimensions can be carried by format `base` (no name is a field of its array)"""
+    fields = set(_dtype(base).names)
+    return all(nm not in fields for nm, _, _ in extras)
+
+
 def fresh_record(fmt, rng, n=256):
     import laspy
-    rec = laspy.PackedPointRecord.zeros(n, laspy.PointFormat(fmt))
+    rec = laspy.PackedPointRecord.zeros(n, point_format(fmt))
     rec.array = rand_array(rng, rec.array.dtype, n)
     return rec
 
@@ -68,9 +175,12 @@ def rand_array(rng, dtype, n):
     return np.frombuffer(rand_bytes(rng, n * dtype.itemsize), dtype=np.uint8).copy().view(dtype).copy()
 
 
-def impl_column(fmt, name, composed, v, rng):
+def impl_column(fmt, name, composed, v, rng, clash=None):
     """assign v to the sub-field of 256 points whose composed byte is 0..255; returns ('ok', bytes of composed, others_equal) | ('err', kind, unchanged)"""
-    rec = fresh_record(fmt, rng)
+    # (for one value in four the layout carries an extra dimension named like the sub-field)
+    if clash is None:
+        clash = v % 4 == 1
+    rec = fresh_record(layout(fmt, [(name, EXTRA_TYPES[v % len(EXTRA_TYPES)], False)]) if clash else fmt, rng)
     rec.array[composed] = np.arange(256, dtype=np.uint8)
     before = rec.array.copy()
     try:
@@ -118,7 +228,16 @@ def correspond(ctx):
                          "all ones, all zeros, alternating 0xFF/0x00 and 0xAA/0x55, random; the field assigned through all / ... / slice / mask / "
                          "index array / setitem / setattr; then every sibling of the byte assigned ordered / constant / alternating / random "
                          "values: after every step ~600 routes of the field in each of the 6 ways to reach its view, and the model's routes "
-                         "(array, max, min, sum, count, unique, bool, 8 integer types, items, 36 comparisons) of every field of the byte")
+                         "(array, max, min, sum, count, unique, bool, 8 integer types, items, 36 comparisons) of every field of the byte. "
+                         "LAYOUTS (round 6): one case in four of every generator above uses a point layout with 1-4 extra dimensions "
+                         "named like a sub-field of the format / an old alias / a sub-field of the other family / 'quality', of 8 types, "
+                         "15% scaled (for one value in four of the exhaustive sweep: an extra dimension named like the assigned field); "
+                         "sources of copy_fields_from share some of them; the model's name lookup is compared with the object rec[name] / "
+                         "las[name] hands out for every sub-field name, alias, field and extra name on 5-13 layouts per format x 3 hosts. "
+                         "KEPT HANDLES (round 6): per format a LasData with two kept SubFieldViews and a slice, then update_header / write / "
+                         "write after header.offsets or .scales changed / a writer with other scaling (also failing) / change_scaling / resize / "
+                         "add-remove extra dims, each followed by an assignment through every kept handle and on the LasData; the same "
+                         "steps at random in 12% of the steps of the random worlds")
     sfs = sub_fields()
     vals = values(ctx)
     masks = sorted({m for _, _, _, m in sfs})
@@ -147,7 +266,8 @@ def correspond(ctx):
         fmt, name, composed, m = ctx.rng.choice(sfs)
         maxv = m >> ((m & -m).bit_length() - 1)
         n = ctx.rng.choice([1, 2, 5, 17])
-        rec = fresh_record(fmt, ctx.rng, n)
+        lf = layout(fmt, gen_extras(ctx.rng, fmt, must=name)) if ctx.rng.random() < 0.25 else fmt
+        rec = fresh_record(lf, ctx.rng, n)
         kind = ctx.rng.choice(["all", "slice", "mask", "list", "int"])
         if kind == "all":
             key, pos = slice(None), list(range(n))
@@ -214,7 +334,7 @@ def correspond(ctx):
                     why = "another dimension changed"
         if why:
             _ARR_FAILS.append({"kind": f"index expression {kind} {'out-of-range' if oob else 'in-range'}",
-                               "input": {"format": fmt, "field": name, "index": str(key)[:60], "value": str(value)[:80], "value_type": type(value).__name__ + (":" + str(getattr(value, "dtype", "")))},
+                               "input": {"format": lf, "field": name, "index": str(key)[:60], "value": str(value)[:80], "value_type": type(value).__name__ + (":" + str(getattr(value, "dtype", "")))},
                                "observed": why})
         sel = ",".join(f"{p}:{v}" for p, v in zip(pos, vlist)) or "-"
         cases.append((f"sf_arr {m} {common.hexb(before[composed].tobytes())} {sel}", im, others, (fmt, name, kind, str(key)[:40], str(value)[:60])))
@@ -229,9 +349,76 @@ def correspond(ctx):
             ok = im[0] == "err" and "err " + im[1] == mo and others
         if not ok:
             dis.append({"kind": f"index expression {desc[2]}", "input": {"desc": desc, "cmd": cmd}, "model": mo, "impl": str(im)})
+    dis += correspond_lookup(ctx)
     dis += correspond_sessions(ctx)
     dis += correspond_routes(ctx)
     dis += correspond_worlds(ctx)
+    return dis
+
+
+def impl_lookup(obj, rec, name):
+    """what obj[name] addresses, read off the object it returns (the memory it is a view of):
+    sub:<composed>:<mask> | field:<name> | none (numpy's ValueError)"""
+    import laspy.point.dims as dims
+    try:
+        v = obj[name]
+    except ValueError:
+        return "none"
+    arr = rec.array
+
+    def where(a):
+        a = np.asarray(a)
+        ptr = a.__array_interface__["data"][0]
+        for f in arr.dtype.names:
+            col = arr[f]
+            if col.__array_interface__["data"][0] == ptr and col.dtype == a.dtype and col.strides == a.strides:
+                return f
+        return "?"
+    if isinstance(v, dims.SubFieldView):
+        return f"sub:{where(v.array)}:{int(v.bit_mask)}"
+    if isinstance(v, dims.ScaledArrayView):
+        return "field:" + where(v.array)
+    return "field:" + where(v)
+
+
+def correspond_lookup(ctx):
+    """round 6: the name lookup (Model/SubFieldRec.v `resolve`) against what rec[name] / las[name] hand out, on layouts with
+    extra dimensions named like sub-fields, like aliases, like sub-fields of the other family"""
+    import laspy.point.dims as dims
+    cmds, meta, early = [], [], {}
+    every = sorted({nm for _, nm, _, _ in sub_fields()}) + sorted(dims.OLD_LASPY_NAMES) + ["quality", "nope", "x", "X", "classification"]
+    for base in range(11):
+        tab, cols = fmt_table(base)
+        layouts = [base] + [layout(base, gen_extras(ctx.rng, base, must=nm)) for nm in ctx.rng.sample(clash_names(base), ctx.n(4, 12))]
+        for lf in layouts:
+            for hostkind in HOSTS:
+                raw = rand_bytes(ctx.rng, 2 * _itemsize(lf))
+                try:
+                    host = Host(hostkind, lf, raw)
+                except Exception as ex:                           # (LasData reads return_number when it is given its points)
+                    if "creating" not in early:
+                        early["creating"] = {"kind": "name lookup: creating the record raised", "input": {"layout": lf, "host": hostkind, "raw": raw.hex()},
+                                             "model": "a record", "impl": f"{type(ex).__name__}: {str(ex)[:100]}"}
+                    continue
+                rec = host.record()
+                names = [nm for nm in every + cols + [x[0] for x in extras_of(lf)] if not (hostkind != "packed" and nm in ("x", "y", "z"))]
+                cmds.append(f"sf_lookup {base} {','.join(rec.array.dtype.names)} {','.join(names)}")
+                meta.append((lf, hostkind, names, [impl_lookup(host.obj, rec, nm) for nm in names]))
+                ctx.count("lookup:" + ("extra-dims" if extras_of(lf) else "plain"))
+    dis, seen = list(early.values()), set()
+    for (lf, hostkind, names, impl), cmd, mo in zip(meta, cmds, common.run_model(cmds, name=DRIVER)):
+        ctx.traces += 1
+        ctx.evaluations += len(names)
+        ctx.case(cmd, nontrivial=bool(extras_of(lf)), sample={"lookup": {"layout": lf, "cmd": cmd[:120], "model": mo[:120]}} if extras_of(lf) and len(ctx.samples) < 4 else None)
+        mvals = mo.split(";")
+        for j, nm in enumerate(names):
+            mv = mvals[j] if j < len(mvals) else mo[:80]
+            if mv != impl[j]:
+                clashing = nm in [x[0] for x in extras_of(lf)]
+                kind = "name lookup" + (" (an extra dimension has the name)" if clashing else "")
+                if kind not in seen:
+                    seen.add(kind)
+                    dis.append({"kind": kind, "input": {"layout": lf, "host": hostkind, "name": nm}, "model": mv, "impl": impl[j]})
     return dis
 
 
@@ -247,7 +434,7 @@ def fmt_table(fmt):
     """[(sub-field name, composed dimension, mask)] in the order of the format's dimensions, [composed names]"""
     import laspy.point.dims as dims
     tab = []
-    for composed, subs in dims.COMPOSED_FIELDS[fmt].items():
+    for composed, subs in dims.COMPOSED_FIELDS[base_fmt(fmt)].items():
         for sf in subs:
             tab.append((sf.name, composed, int(sf.mask)))
     cols = []
@@ -267,14 +454,14 @@ class Host:
     def __init__(self, kind, fmt, raw):
         import laspy
         self.kind, self.fmt = kind, fmt
-        pf = laspy.PointFormat(fmt)
+        pf = point_format(fmt)
         arr = np.frombuffer(raw, dtype=np.uint8).copy().view(pf.dtype()).copy()
         if kind == "packed":
             self.obj = self.rec = laspy.PackedPointRecord(arr, pf)
         elif kind == "scaled":
             self.obj = self.rec = laspy.ScaleAwarePointRecord(arr, pf, [1.0, 1.0, 1.0], [0.0, 0.0, 0.0])
         else:
-            las = laspy.create(point_format=fmt)
+            las = las_of(fmt)
             las.points = laspy.ScaleAwarePointRecord(arr, las.header.point_format, las.header.scales, las.header.offsets)
             self.obj = las
             self.rec = None
@@ -305,6 +492,8 @@ def mk_key(k):
         return np.array(k["v"], dtype=np.int64)
     if t == "npint":
         return np.int64(k["v"])
+    if t == "range":
+        return range(*k["v"])
     return int(k["v"])
 
 
@@ -328,6 +517,19 @@ def value_list(v):
     if v["t"] in ("int", "bool", "np"):
         return True, [int(v["v"])]
     return False, [int(x) for x in v["v"]]
+
+
+def materialise(fmt, raw, op):
+    """round 6: in-place operators. `obj.name += k` / `obj[name] -= k` is a whole-dimension assignment of the field's CURRENT
+    values plus / minus k (Python: getattr, __iadd__ or __add__ of the view, setattr): the operation is given the values it
+    must assign on the state it starts from (key "delta" keeps how it is performed)"""
+    if op.get("op") != "seq" or op["value"].get("t") != "delta":
+        return op
+    tab, _ = fmt_table(fmt)
+    c, m = {nm: (c, m) for nm, c, m in tab}[op["field"]]
+    _, cols = unpack_state(fmt, raw)
+    k = int(op["value"]["v"])
+    return {**op, "delta": k, "value": {"t": "array", "dtype": "int64", "v": [((b & m) >> lsb_of(m)) + k for b in cols[c]]}}
 
 
 def apply_op(host, op):
@@ -358,7 +560,17 @@ def apply_op(host, op):
             obj = host.obj
             if path.startswith("points_"):
                 obj, path = host.record(), path[len("points_"):]
-            if path == "setitem":
+            if "delta" in op:
+                # exactly what Python does for `obj.name += k` / `obj[name] -= k`
+                k = op["delta"]
+                get, put = ((lambda: getattr(obj, name)), (lambda v: setattr(obj, name, v))) if path in ("setattr", "old_attr") else (
+                    (lambda: obj[name]), (lambda v: obj.__setitem__(name, v)))
+                if path in ("old", "old_attr"):
+                    name = OLD_NAMES[name]
+                v = get()
+                v = operator.iadd(v, k) if k >= 0 else operator.isub(v, -k)
+                put(v)
+            elif path == "setitem":
                 obj[name] = value
             elif path == "setattr":
                 setattr(obj, name, value)
@@ -369,7 +581,7 @@ def apply_op(host, op):
             else:
                 setattr(obj, OLD_NAMES[name], value)
         else:
-            spf = laspy.PointFormat(op["sfmt"])
+            spf = point_format(op["sfmt"])
             src = laspy.PackedPointRecord(np.frombuffer(bytes.fromhex(op["src"]), dtype=np.uint8).copy().view(spf.dtype()).copy(), spf)
             host.record().copy_fields_from(src)
         return "ok"
@@ -386,7 +598,7 @@ def resolve_key(k, L):
         return list(range(L))[slice(*k["v"])]
     if t == "mask":
         return [i for i, b in enumerate(k["v"]) if b]
-    idx = k["v"] if t in ("list", "arr") else [k["v"]]
+    idx = k["v"] if t in ("list", "arr") else list(range(*k["v"])) if t == "range" else [k["v"]]
     out = []
     for i in idx:
         if not -L <= i < L:
@@ -406,8 +618,7 @@ def view_positions(op, n):
 
 
 def unpack_state(fmt, raw):
-    import laspy
-    dt = laspy.PointFormat(fmt).dtype()
+    dt = _dtype(fmt)
     arr = np.frombuffer(raw, dtype=np.uint8).view(dt)
     tab, cols = fmt_table(fmt)
     return arr, {c: [int(b) for b in arr[c]] for c in cols}
@@ -471,7 +682,7 @@ def expect_op(fmt, raw, op):
         if name in sby:
             sc, sm = sby[name]
             vs = [(b & sm) >> lsb_of(sm) for b in scols[sc]]
-        elif name in (sarr.dtype.names or ()):
+        elif name in _dtype(base_fmt(op["sfmt"])).names:         # a standard dimension of the source (not an extra one)
             vs = [int(x) for x in sarr[name]]
         else:
             continue                                             # the source lacks it
@@ -845,6 +1056,13 @@ def _check_reads(host, fmt, op, level, salt):
             why = run_routes(v, wants[name], maxv, lvl, pk, others if path == "item" else None, f"{name} ({path}): ")
             if why:
                 return why
+        # through ONE point selected by an integer (a 0-d record): obj[i][name]
+        if n and name == group[0]:
+            for i in sorted({0, n - 1, -1, -n, n // 2}):
+                for base, bname in ((host.obj, "obj"), (rec, "points")) if host.kind == "las" else ((rec, "points"),):
+                    got = np.array(base[i][name])
+                    if got.shape != () or int(got) != wants[name][i]:
+                        return _why("obj[i][name]", f"{name} ({bname}[{i}][name]) reads {got.tolist()}, the bits of the field say {wants[name][i]}")
         # through a selection of the points (a new record object): obj[selection][name]
         if n and ((full and sib_level) or name == group[0]):
             sels = [("[::-1]", slice(None, None, -1), wants[name][::-1]), ("[1::2]", slice(1, None, 2), wants[name][1::2]),
@@ -864,7 +1082,9 @@ def classify(fmt, n, op):
     by_name = {nm: (c, m) for nm, c, m in tab}
     if op["op"] == "copy":
         sn = len(bytes.fromhex(op["src"])) // _itemsize(op["sfmt"])
-        fam = "same-family" if (op["sfmt"] >= 6) == (fmt >= 6) else "cross-family"
+        fam = "same-family" if (base_fmt(op["sfmt"]) >= 6) == (base_fmt(fmt) >= 6) else "cross-family"
+        if extras_of(op["sfmt"]) or extras_of(fmt):
+            fam += " extra-dims"
         ln = ("empty-source" if sn == 0 else "same-length" if sn == n else "one-point-source" if sn == 1
               else "longer-source" if sn > n else "shorter-source")
         return f"copy {fam} {ln}"
@@ -890,7 +1110,7 @@ _ITEMSIZE = {}
 def _itemsize(fmt):
     import laspy
     if fmt not in _ITEMSIZE:
-        _ITEMSIZE[fmt] = laspy.PointFormat(fmt).dtype().itemsize
+        _ITEMSIZE[fmt] = point_format(fmt).dtype().itemsize
     return _ITEMSIZE[fmt]
 
 
@@ -966,6 +1186,14 @@ def gen_key(rng, L, allow_bad_index):
     if allow_bad_index and rng.random() < 0.08:
         bad = rng.choice([L, -L - 1, L + 5])
         return rng.choice([{"k": "int", "v": bad}, {"k": "list", "v": [0, bad]}, {"k": "arr", "v": [bad]}])
+    if r < 0.64:                                               # a Python range as the index (negative bounds too)
+        st = rng.choice([1, 1, 2, -1, -2])
+        a = rng.randrange(-L, L)
+        cnt = 0
+        while cnt < 4 and -L <= a + cnt * st < L:
+            cnt += 1
+        cnt = rng.randrange(1, cnt + 1)                        # (an empty sequence is not an index for numpy)
+        return {"k": "range", "v": [a, a + cnt * st, st]}
     if r < 0.8:
         idx = [rng.randrange(-L, L) for _ in range(rng.randrange(1, 6))]
         return {"k": rng.choice(["list", "arr"]), "v": idx}
@@ -1029,27 +1257,36 @@ def gen_seq_op(rng, fmt, hostkind, n):
         count = 0
     if path.endswith("names") and count == 0:
         path = path.replace("names", "setitem")
+    if rng.random() < 0.12:                                  # obj.name += k / obj[name] -= k
+        return {"op": "seq", "field": name, "path": path.replace("names", "setitem"),
+                "value": {"t": "delta", "v": rng.choice([1, 1, 2, -1, -1, 0, maxv, -maxv])}}
     return {"op": "seq", "field": name, "path": path, "value": gen_value(rng, count, maxv, rng.random() < 0.2 and count > 0, False)}
 
 
 def gen_copy_op(rng, fmt, n):
     r = rng.random()
-    same = [f for f in range(11) if (f >= 6) == (fmt >= 6)]
-    cross = [f for f in range(11) if (f >= 6) != (fmt >= 6)]
+    dbase = base_fmt(fmt)
+    same = [f for f in range(11) if (f >= 6) == (dbase >= 6)]
+    cross = [f for f in range(11) if (f >= 6) != (dbase >= 6)]
     sfmt = rng.choice(same) if r < 0.65 else rng.choice(cross)
+    if rng.random() < (0.6 if extras_of(fmt) else 0.08):
+        # the source has extra dimensions too: some of the destination's (same type), maybe one more named like a sub-field
+        ex = [e for e in extras_of(fmt) if rng.random() < 0.7 and fits([e], sfmt)]
+        if rng.random() < 0.5:
+            ex += [e for e in gen_extras(rng, sfmt)[:1] if e[0] not in [x[0] for x in extras_of(fmt)]]
+        sfmt = layout(sfmt, ex)
     r = rng.random()
     sn = n if r < 0.6 else n + rng.choice([1, 2, 4]) if r < 0.75 else 1 if r < 0.85 else rng.randrange(0, max(n, 1)) if r < 0.97 else 0
-    import laspy
-    dt = laspy.PointFormat(sfmt).dtype()
+    dt = _dtype(sfmt)
     arr = rand_array(rng, dt, sn)
-    if sfmt >= 6 and fmt < 6 and rng.random() < 0.7:
+    if base_fmt(sfmt) >= 6 and dbase < 6 and rng.random() < 0.7:
         arr["bit_fields"] &= 0x77                         # values that fit the narrower fields of formats 0-5
         arr["classification"] &= 0x1F
     return {"op": "copy", "sfmt": sfmt, "src": arr.tobytes().hex()}
 
 
 def gen_session(rng):
-    fmt = rng.randrange(11)
+    fmt = gen_layout(rng)
     host = rng.choice(HOSTS)
     n = rng.choice([0, 1, 1, 2, 3, 4, 5, 7, 8])
     raw = rand_bytes(rng, n * _itemsize(fmt))
@@ -1088,13 +1325,14 @@ def chunk_sessions(rng):
                 cnt = min(size, n - a)
                 ops.append({"op": "view", "field": name, "path": "item", "chain": [[a, a + size, None]], "key": {"k": "all"},
                             "value": gen_value(rng, cnt, maxv, False, False)})
-            out.append({"format": fmt, "host": rng.choice(HOSTS), "raw": rand_bytes(rng, n * _itemsize(fmt)).hex(), "ops": ops})
+            lf = layout(fmt, gen_extras(rng, fmt, must=name)) if rng.random() < 0.3 else fmt
+            out.append({"format": lf, "host": rng.choice(HOSTS), "raw": rand_bytes(rng, n * _itemsize(lf)).hex(), "ops": ops})
         n = rng.choice([1, 3, 4])
         import laspy
         ops = []
         for _ in range(3):
             sfmt = rng.choice([f for f in range(11) if (f >= 6) == (fmt >= 6)])
-            ops.append({"op": "copy", "sfmt": sfmt, "src": rand_array(rng, laspy.PointFormat(sfmt).dtype(), n).tobytes().hex()})
+            ops.append({"op": "copy", "sfmt": sfmt, "src": rand_array(rng, _dtype(sfmt), n).tobytes().hex()})
         out.append({"format": fmt, "host": rng.choice(HOSTS), "raw": bytes(n * _itemsize(fmt)).hex(), "ops": ops})
     return out
 
@@ -1120,15 +1358,15 @@ def model_op(fmt, n, op):
         stab, _ = fmt_table(sfmt)
         dtab, _ = fmt_table(fmt)
         snames = {nm for nm, _, _ in stab}
-        plain = [f"{nm}={common.zl(int(x) for x in sarr[nm])}" for nm, _, _ in dtab if nm not in snames and nm in sarr.dtype.names]
-        return f"C!{sfmt}!{cols_tok(sfmt, raw)}!{'|'.join(plain) or '-'}"
+        plain = [f"{nm}={common.zl(int(x) for x in sarr[nm])}" for nm, _, _ in dtab if nm not in snames and nm in _dtype(base_fmt(sfmt)).names]
+        return f"C!{base_fmt(sfmt)}!{cols_tok(sfmt, raw)}!{'|'.join(plain) or '-'}"
     pos, chain = view_positions(op, n)
     L = len(pos)
     scalar, vs = value_list(op["value"])
     idx = resolve_key(op["key"], L)
     if idx is None:                      # an index outside the view: the model refuses the position L
         k = op["key"]
-        idx = [(i % L if -L <= i < L else L) for i in (k["v"] if k["k"] in ("list", "arr") else [k["v"]])]
+        idx = [(i % L if -L <= i < L else L) for i in (k["v"] if k["k"] in ("list", "arr") else list(range(*k["v"])) if k["k"] == "range" else [k["v"]])]
     if scalar or len(vs) == 1:
         pairs = [(i, vs[0]) for i in idx]
         if not pairs and vs:             # nothing addressed: only the range check of the value remains (never out of range here)
@@ -1159,6 +1397,7 @@ def run_session(sess, observe=None):
     steps = []
     for op in sess["ops"]:
         before = host.raw()
+        op = materialise(sess["format"], before, op)
         status = apply_op(host, op)
         after = host.raw()
         steps.append((before, op, status, after,
@@ -1212,7 +1451,7 @@ def correspond_sessions(ctx):
             mops.append(model_op(fmt, n, op))
             ctx.count("hist:" + classify(fmt, n, op).replace(" in-range", "").replace(" out-of-range", " oob"))
         ctx.count("host:" + sess["host"])
-        cmds.append(f"sf_hist {fmt} {cols_tok(fmt, bytes.fromhex(sess['raw']))} {';'.join(mops)}")
+        cmds.append(f"sf_hist {base_fmt(fmt)} {cols_tok(fmt, bytes.fromhex(sess['raw']))} {';'.join(mops)}")
         runs.append((sess, steps))
     outs = common.run_model(cmds, name=DRIVER)
     dis = []
@@ -1309,9 +1548,12 @@ def route_sessions(rng, thorough=False):
     out = []
     for fmt in range(11):
         tab, _ = fmt_table(fmt)
-        sz = _itemsize(fmt)
-        off = {c: _dtype(fmt).fields[c][1] for _, c, _ in tab}
+        base = fmt
         for name, c, m in tab:
+            # one time in three (thorough: every second sub-field) the layout has an extra dimension named like the field
+            fmt = layout(base, gen_extras(rng, base, must=name)) if rng.random() < (0.5 if thorough else 0.34) else base
+            sz = _itemsize(fmt)
+            off = {c: _dtype(fmt).fields[c][1] for _, c, _ in tab}
             maxv = m >> lsb_of(m)
             sibs = [(nm, mm) for nm, cc, mm in tab if cc == c and nm != name]
             sweep = SWEEP if thorough else SWEEP[:2] + rng.sample(SWEEP[2:], 1)
@@ -1474,13 +1716,23 @@ class _ReadOnly:
         pass
 
 
+class _FailingDest(io.BytesIO):
+    """a destination that takes the header and then fails on every write (once armed)"""
+    armed = False
+
+    def write(self, b):
+        if self.armed and len(b):
+            raise OSError("disk full")
+        return super().write(b)
+
+
 _DTYPES = {}
 
 
 def _dtype(fmt):
     import laspy
     if fmt not in _DTYPES:
-        _DTYPES[fmt] = laspy.PointFormat(fmt).dtype()
+        _DTYPES[fmt] = point_format(fmt).dtype()
     return _DTYPES[fmt]
 
 
@@ -1488,7 +1740,7 @@ def _dim_order(fmt):
     """dimension names in the order copy_fields_from visits them: the dtype's fields, a composed byte replaced by its sub-fields"""
     tab, _ = fmt_table(fmt)
     out = []
-    for f in _dtype(fmt).names:
+    for f in _dtype(base_fmt(fmt)).names:
         subs = [nm for nm, c, _ in tab if c == f]
         out.extend(subs if subs else [f])
     return out
@@ -1514,9 +1766,10 @@ def expect_raw(fmt, raw, op):
             if name in sby:
                 sc, sm = sby[name]
                 return np.array([(b & sm) >> lsb_of(sm) for b in scols[sc]], dtype=np.uint8)
-            if name in (sarr.dtype.names or ()):
+            if name in _dtype(base_fmt(op["sfmt"])).names:       # standard dimensions come from standard dimensions only
                 return sarr[name]
             return None
+        completed = True
         for name in _dim_order(fmt):
             vs = src_values(name)
             if vs is None:
@@ -1524,12 +1777,22 @@ def expect_raw(fmt, raw, op):
             if name in by_name:
                 c, m = by_name[name]
                 if len(vs) and int(vs.max()) > (m >> lsb_of(m)):
+                    completed = False
                     break                                        # OverflowError leaves copy_fields_from here
                 continue                                         # (the packed bytes are expect_op's)
             try:
                 new[name][:] = vs
             except ValueError:
                 pass                                             # shapes differ: this dimension is skipped
+        # then the extra dimensions, from the EXTRA dimension of that name of the source (the stored values)
+        sextra = {nm for nm, _, _ in extras_of(op["sfmt"])}
+        for name, _, _ in (extras_of(fmt) if completed else []):
+            if name in sextra:
+                try:
+                    with np.errstate(all="ignore"):
+                        new[name][:] = sarr[name]
+                except ValueError:
+                    pass
     for c, bs in cols.items():
         new[c] = np.array(bs, dtype=np.uint8)
     return status, new.tobytes()
@@ -1654,8 +1917,36 @@ class OWorld:
         elif s == "drop":
             del self.objs[st["id"]]
             del self.is_las[st["id"]]
+        elif s == "touch":
+            # round 6: operations of a LasData / record that are NOT assignments to a sub-field and, in the unchanged code,
+            # keep the array where it is (every view / slice / record over it taken earlier stays attached): update_header,
+            # write (LasData.write, LasWriter.write_points - also when the writer rescales X, Y, Z in place and puts them back,
+            # also when the destination fails), change_scaling (X, Y, Z change in place: run_world takes them from the object)
+            return {"writer_fail": "err:*", "change_scaling": "ok|err:EOverflow"}.get(st["how"], "ok")
+        elif s == "extradims":
+            # add_extra_dims / remove_extra_dims: the LasData gets a NEW record (zeros, copy_fields_from, points setter):
+            # what was taken from the old record earlier stays on the old memory
+            e = self.objs[st["on"]]
+            cur = self.fmt_of(e)
+            ex = extras_of(cur)
+            new = layout(base_fmt(cur), [x for x in ex if x[0] not in st.get("remove", [])] + [tuple(x) for x in st.get("add", [])])
+            status, raw = expect_raw(new, bytes(len(e["pos"]) * _itemsize(new)), {"op": "copy", "sfmt": cur, "src": self.raw_of(e).hex()})
+            if status != "ok":
+                return status
+            b = self.new_buf(new, raw)
+            self.objs[st["on"]] = {"buf": b, "pos": list(range(len(e["pos"]))), "origin": e["origin"]}
+        elif s == "resize":
+            # rec.resize(k): another length = a new array (np.append / a copy of the first k points); the same length: nothing
+            e = self.objs[st["on"]]
+            n, k = len(e["pos"]), st["n"]
+            if k != n:
+                raw = self.raw_of(e)
+                sz = _itemsize(self.fmt_of(e))
+                e["buf"] = self.new_buf(self.fmt_of(e), raw[:k * sz] + bytes(max(0, k - n) * sz))
+                e["pos"] = list(range(k))
         elif s == "op":
-            return self.assign(self.objs[st["on"]], st["op"])
+            e = self.objs[st["on"]]
+            return self.assign(e, materialise(self.fmt_of(e), self.raw_of(e), st["op"]))
         elif s == "copyfrom":
             src = self.objs[st["src"]]
             return self.assign(self.objs[st["on"]], {"op": "copy", "sfmt": self.fmt_of(src), "src": self.raw_of(src).hex()})
@@ -1692,7 +1983,7 @@ class AWorld:
             with open(self.path, "rb") as f:
                 return f.read()
         if self._file is None:
-            las = laspy.create(point_format=self.fmt)
+            las = las_of(self.fmt)
             arr = np.frombuffer(self.raw, dtype=np.uint8).copy().view(las.header.point_format.dtype()).copy()
             las.points = laspy.ScaleAwarePointRecord(arr, las.header.point_format, las.header.scales, las.header.offsets)
             bio = io.BytesIO()
@@ -1742,7 +2033,7 @@ class AWorld:
     def _apply(self, st, laspy):
         s = st["s"]
         if s == "mem":
-            pf = laspy.PointFormat(self.fmt)
+            pf = point_format(self.fmt)
             arr = np.frombuffer(self.raw, dtype=np.uint8).copy().view(pf.dtype()).copy()
             if st["host"] == "buffer":
                 buf = bytearray(self.raw)
@@ -1752,17 +2043,17 @@ class AWorld:
                 h = Host(st["host"], self.fmt, self.raw)
                 self.objs[st["id"]] = _Obj(h.obj, st["host"] == "las")
         elif s == "zeros":
-            pf = laspy.PointFormat(self.fmt)
+            pf = point_format(self.fmt)
             if st["host"] == "packed":
                 new = laspy.PackedPointRecord.zeros(st["n"], pf) if st["n"] else laspy.PackedPointRecord.empty(pf)
             elif st["host"] == "scaled":
                 new = laspy.ScaleAwarePointRecord.zeros(st["n"], point_format=pf, scales=[1.0, 1.0, 1.0], offsets=[0.0, 0.0, 0.0])
             elif st["host"] == "las":
-                header = laspy.LasHeader(point_format=self.fmt, version=laspy.create(point_format=self.fmt).header.version)
+                header = las_of(self.fmt).header
                 header.point_count = st["n"]
                 new = laspy.LasData(header)
             else:
-                new = laspy.create(point_format=self.fmt)
+                new = las_of(self.fmt)
                 new.points = laspy.ScaleAwarePointRecord.zeros(st["n"], header=new.header)
             self.objs[st["id"]] = _Obj(new, st["host"] in ("las", "create"))
         elif s == "frombuf":
@@ -1820,7 +2111,8 @@ class AWorld:
                 new = laspy.ScaleAwarePointRecord(r.array, r.point_format, [1.0, 1.0, 1.0], [0.0, 0.0, 0.0])
             else:
                 o = self.objs[st["of"]]
-                header = o.obj.header if o.kind == "las" else laspy.create(point_format=r.point_format.id).header
+                header = o.obj.header if o.kind == "las" else laspy.LasHeader(
+                    point_format=r.point_format, version=laspy.create(point_format=r.point_format.id).header.version)
                 new = laspy.LasData(header, points=r)
             self.objs[st["id"]] = _Obj(new, st["as"] == "las")
         elif s == "setpoints":
@@ -1829,9 +2121,9 @@ class AWorld:
         elif s == "convert":
             o = self.objs[st["of"]]
             if st["how"] == "convert":
-                new = _Obj(laspy.convert(o.obj, point_format_id=st["to"]), True)
+                new = _Obj(laspy.convert(o.obj, point_format_id=base_fmt(st["to"])), True)      # (keeps the extra dimensions)
             else:
-                new = _Obj(laspy.PackedPointRecord.from_point_record(o.record(), laspy.PointFormat(st["to"])), False)
+                new = _Obj(laspy.PackedPointRecord.from_point_record(o.record(), point_format(st["to"])), False)
             self.objs[st["id"]] = new
         elif s == "hold":
             o = self.objs[st["of"]]
@@ -1846,6 +2138,17 @@ class AWorld:
         elif s == "drop":
             self.objs.pop(st["id"], None)
             self.views.pop(st["id"], None)
+        elif s == "touch":
+            self.touch(st, laspy)
+        elif s == "extradims":
+            las = self.objs[st["on"]].obj
+            if st.get("remove"):
+                (las.remove_extra_dim(st["remove"][0]) if len(st["remove"]) == 1 and st.get("single") else las.remove_extra_dims(list(st["remove"])))
+            if st.get("add"):
+                prm = extra_params(None, [tuple(x) for x in st["add"]])
+                (las.add_extra_dim(prm[0]) if len(prm) == 1 and st.get("single") else las.add_extra_dims(prm))
+        elif s == "resize":
+            self.rec(st["on"]).resize(st["n"])
         elif s == "op":
             return apply_op(self.objs[st["on"]], st["op"])
         elif s == "copyfrom":
@@ -1855,6 +2158,41 @@ class AWorld:
         else:
             raise KeyError(s)
         return "ok"
+
+    def touch(self, st, laspy):
+        o = self.objs[st["on"]]
+        how, rec = st["how"], o.record()
+        k = np.array(st.get("k", [3, -2, 5]), dtype=np.float64)
+        if how == "update_header":
+            o.obj.update_header()
+        elif how == "write":
+            o.obj.write(io.BytesIO())
+        elif how in ("write_offsets", "write_scales"):
+            # the header is given other offsets / scales than the points have: LasData.write -> the writer rescales X, Y, Z
+            # in place for the time of the write and puts the caller's values back
+            h = o.obj.header
+            if how == "write_offsets":
+                h.offsets = np.array(h.offsets) + np.array(h.scales) * k
+            else:
+                h.scales = np.array(h.scales) * 2.0
+            o.obj.write(io.BytesIO())
+        elif how in ("writer", "writer_fail", "writer_point"):
+            # a writer of its own, whose header has other scales and offsets than the record
+            pf = rec.point_format
+            h = laspy.LasHeader(point_format=pf, version=laspy.create(point_format=pf.id).header.version)
+            sc = np.array(getattr(rec, "scales", [1.0, 1.0, 1.0]), dtype=np.float64)
+            of = np.array(getattr(rec, "offsets", [0.0, 0.0, 0.0]), dtype=np.float64)
+            h.scales, h.offsets = sc * 2.0, of + sc * k
+            dest = _FailingDest() if how == "writer_fail" else io.BytesIO()
+            with laspy.open(dest, mode="w", header=h, closefd=False) as w:
+                dest.armed = True
+                # (writer_point: ONE point selected by an integer, a 0-d record over the same memory)
+                w.write_points(rec[len(rec) // 2] if how == "writer_point" and len(rec.array) else rec)
+        elif how == "change_scaling":
+            h = o.obj.header
+            o.obj.change_scaling(scales=np.array(h.scales) * 2.0, offsets=np.array(h.offsets) + np.array(h.scales) * k)
+        else:
+            raise KeyError(how)
 
     def raw_of(self, oid):
         return self.rec(oid).array.tobytes()
@@ -1903,7 +2241,8 @@ def step_class(st):
             "readall": "reading the rest", "read": "reading the file", "mem": "creating a record", "convert": "conversion",
             "fancy": "selection", "slice": "slice", "copy": "copy", "wrap": "wrapping", "hold": "keeping a view",
             "frombuf": "from_buffer", "mmap": "mmap", "setpoints": "las.points = record", "drop": "dropping an object",
-            "reader": "opening a reader", "seek": "seek", "zeros": "creating a zero record"}[st["s"]]
+            "reader": "opening a reader", "seek": "seek", "zeros": "creating a zero record",
+            "touch": "a " + st.get("how", "") + " in between", "extradims": "add/remove_extra_dims", "resize": "resize"}[st["s"]]
 
 
 def plain_tok(sfmt, raw, dfmt):
@@ -1912,7 +2251,7 @@ def plain_tok(sfmt, raw, dfmt):
     stab, _ = fmt_table(sfmt)
     dtab, _ = fmt_table(dfmt)
     snames = {nm for nm, _, _ in stab}
-    plain = [f"{nm}={common.zl(int(x) for x in sarr[nm])}" for nm, _, _ in dtab if nm not in snames and nm in sarr.dtype.names]
+    plain = [f"{nm}={common.zl(int(x) for x in sarr[nm])}" for nm, _, _ in dtab if nm not in snames and nm in _dtype(base_fmt(sfmt)).names]
     return "|".join(plain) or "-"
 
 
@@ -1925,7 +2264,7 @@ class WorldModel:
     Object 0 is the file's points; a reader is the copy of them it sees; a caller's bytearray is a view that is never assigned."""
 
     def __init__(self, ow):
-        self.ops = [f"N!{ow.fmt}!{cols_tok(ow.fmt, ow.base)}"]
+        self.ops = [f"N!{base_fmt(ow.fmt)}!{cols_tok(ow.fmt, ow.base)}"]
         self.count = 1
         self.idx = {}
 
@@ -1935,12 +2274,12 @@ class WorldModel:
         nfile = len(ow.bufs[0][1])
         L = len(ow.objs[st["of"]]["pos"]) if "of" in st and st["of"] in ow.objs else 0
         if s == "mem":
-            out = [(f"N!{ow.fmt}!{cols_tok(ow.fmt, ow.base)}", st["id"])]
+            out = [(f"N!{base_fmt(ow.fmt)}!{cols_tok(ow.fmt, ow.base)}", st["id"])]
             if st["host"] == "buffer":
                 out.append(("L!@!-", "ubuf:" + st["id"]))
             return out
         if s == "zeros":
-            return [(f"N!{ow.fmt}!{cols_tok(ow.fmt, bytes(st['n'] * _itemsize(ow.fmt)))}", st["id"])]
+            return [(f"N!{base_fmt(ow.fmt)}!{cols_tok(ow.fmt, bytes(st['n'] * _itemsize(ow.fmt)))}", st["id"])]
         if s == "frombuf":
             return [(f"L!{ix['ubuf:' + st['of']]}!{_ilist(range(st['offset'], st['offset'] + st['count']))}", st["id"])]
         if s == "read":
@@ -1963,7 +2302,7 @@ class WorldModel:
             return [(f"L!{ix[st['of']]}!-", st["id"])]
         if s == "convert":
             e = ow.objs[st["of"]]
-            return [(f"K!{ix[st['of']]}!{st['to']}!{plain_tok(ow.fmt_of(e), ow.raw_of(e), st['to'])}", st["id"])]
+            return [(f"K!{ix[st['of']]}!{base_fmt(st['to'])}!{plain_tok(ow.fmt_of(e), ow.raw_of(e), st['to'])}", st["id"])]
         if s == "hold":
             _, chain = view_positions({"chain": st["chain"]}, L)
             return [(f"L!{ix[st['of']]}!{'/'.join(_ilist(c) for c in chain) or '-'}", st["id"])]
@@ -1979,6 +2318,16 @@ class WorldModel:
             return [(f"A!{ix[st['view']]}!{model_op(ow.fmt_of(e), len(e['pos']), op)}", None)]
         if s == "setpoints":
             ix[st["of"]] = ix[st["from"]]
+        if s == "extradims":                                      # the LasData's record is a new one, a copy of its points
+            return [(f"G!{ix[st['on']]}!{_ilist(range(len(ow.objs[st['on']]['pos'])))}", st["on"])]
+        if s == "resize":
+            e = ow.objs[st["on"]]
+            n, k = len(e["pos"]), st["n"]
+            if k < n:                                             # (the record object is the same: every id of it follows)
+                return [(f"G!{ix[st['on']]}!{_ilist(range(k))}", "same:" + st["on"])]
+            if k > n:                                             # (the model has no operation that appends zero points without assigning)
+                sz = _itemsize(ow.fmt_of(e))
+                return [(f"N!{base_fmt(ow.fmt_of(e))}!{cols_tok(ow.fmt_of(e), ow.raw_of(e) + bytes((k - n) * sz))}", "same:" + st["on"])]
         return []
 
     def commit(self, toks, status):
@@ -1986,7 +2335,12 @@ class WorldModel:
         for tok, oid in toks:
             self.ops.append(tok.replace("@", str(self.count - 1)))
             if oid is not None and status == "ok":
-                self.idx[oid] = self.count
+                if oid.startswith("same:"):
+                    old = self.idx[oid[5:]]
+                    for k in [k for k, v in self.idx.items() if v == old and not k.startswith(("r:", "ubuf:"))]:
+                        self.idx[k] = self.count
+                else:
+                    self.idx[oid] = self.count
                 self.count += 1
         return len(self.ops) - 1 if toks else None
 
@@ -2022,6 +2376,8 @@ def run_world(sess, upto=None):
         return False
     try:
         for i, st in enumerate(sess["steps"][:upto]):
+            if st["s"] == "op" and st["on"] in ow.objs:          # (an in-place operator: the values it must assign, on this state)
+                st = {**st, "op": materialise(ow.fmt_of(ow.objs[st["on"]]), ow.raw_of(ow.objs[st["on"]]), st["op"])}
             before = {k: ow.raw_of(e) for k, e in ow.entries()}
             toks = wm.tokens(ow, st)
             exp = ow.apply(st)
@@ -2030,7 +2386,13 @@ def run_world(sess, upto=None):
             target = st.get("on") or st.get("view") or st.get("id")
             tgt_e = ow.objs.get(target)
             t_origin = tgt_e["origin"] if tgt_e else "-"
-            if got != exp:
+            if st["s"] == "touch" and st["how"] == "change_scaling" and got == "ok" and tgt_e is not None:
+                # X, Y, Z were recomputed in place (not this property's business): taken from the object, into its memory
+                have = np.frombuffer(aw.raw_of(target), dtype=np.uint8).view(ow.bufs[tgt_e["buf"]][1].dtype)
+                if len(have) == len(tgt_e["pos"]) and len(have):
+                    for f in ("X", "Y", "Z"):
+                        ow.bufs[tgt_e["buf"]][1][f][np.array(tgt_e["pos"], dtype=np.intp)] = have[f]
+            if not (got == exp or (exp == "err:*" and got.startswith("err:")) or ("|" in exp and got in exp.split("|"))):
                 return ({"kind": f"objects: {step_class(st)} on {t_origin}: outcome", "input": {**sess, "steps": sess["steps"][:i + 1]},
                          "observed": f"step {i} ({st['s']}): outcome {got}, expected {exp}"}, trace)
             state = {k: (ow.fmt_of(e), aw.raw_of(k)) for k, e in ow.entries() if "field" not in e}
@@ -2110,7 +2472,8 @@ SOURCES = ["path", "bytesio", "fileobj", "readonly"]
 class WorldGen:
     def __init__(self, rng, fmt=None, n=None):
         self.rng = rng
-        self.fmt = rng.randrange(11) if fmt is None else fmt
+        self.fmt = gen_layout(rng) if fmt is None else fmt
+        self.tainted = set()                 # objects whose PointFormat / header OBJECT is shared with another live object
         self.n = rng.choice([1, 2, 3, 4, 6, 8, 9, 12]) if n is None else n
         self.raw = rand_bytes(rng, self.n * _itemsize(self.fmt))
         self.ow = OWorld(self.fmt, self.raw)
@@ -2202,18 +2565,30 @@ class WorldGen:
         elif r < 0.5:
             self.add({"s": "copy", "id": self.new_id(), "of": a})
         elif r < 0.65:
-            self.add({"s": "wrap", "id": self.new_id(), "of": a, "as": rng.choice(["packed", "scaled", "las"])})
+            nid = self.new_id()
+            self.add({"s": "wrap", "id": nid, "of": a, "as": rng.choice(["packed", "scaled", "las"])})
+            self.tainted.update({a, nid})
         elif r < 0.75:
-            to = rng.choice([fmt, rng.randrange(11), rng.choice([f for f in range(11) if (f >= 6) == (fmt >= 6)])])
+            b, ex = base_fmt(fmt), extras_of(fmt)
+            to = rng.choice([b, rng.randrange(11), rng.choice([f for f in range(11) if (f >= 6) == (b >= 6)])])
             how = "convert" if las and rng.random() < 0.6 else "from_point_record"
+            if not fits(ex, to):
+                to = b
+            if how == "convert":
+                to = layout(to, ex)                                # laspy.convert keeps the extra dimensions
+            elif rng.random() < 0.6:
+                to = layout(to, [x for x in ex if rng.random() < 0.7] + ([x for x in gen_extras(rng, to)[:1] if x[0] not in [y[0] for y in ex]] if rng.random() < 0.3 else []))
             self.add({"s": "convert", "id": self.new_id(), "of": a, "to": to, "how": how})
         elif r < 0.82:
             lases = [k for k in recs if self.ow.is_las[k] and self.ow.objs[k]["origin"] not in ("mmap", "rest") and self.ow.fmt_of(self.ow.objs[k]) == fmt]
             same = [k for k in recs if not self.ow.is_las[k] and self.ow.fmt_of(self.ow.objs[k]) == fmt and self.ow.objs[k] is not e]
             if las and e["origin"] not in ("mmap", "rest") and same:
-                self.add({"s": "setpoints", "of": a, "from": rng.choice(same)})
+                b = rng.choice(same)
+                self.add({"s": "setpoints", "of": a, "from": b})
+                self.tainted.update({a, b})
             elif lases and not las and self.ow.objs[lases[0]] is not e:
                 self.add({"s": "setpoints", "of": lases[0], "from": a})
+                self.tainted.update({a, lases[0]})
         else:
             tab, _ = fmt_table(fmt)
             name = rng.choice(tab)[0]
@@ -2228,11 +2603,53 @@ class WorldGen:
                 LL = len(range(LL)[slice(*sl)])
             self.add({"s": "hold", "id": self.new_id(), "of": a, "field": name, "path": path, "chain": chain})
 
+    TOUCH_LAS = ["update_header", "write", "write_offsets", "write_scales", "writer", "writer", "writer_fail", "change_scaling", "writer_point"]
+
+    def touch(self, on=None, how=None):
+        """round 6: an operation in between that is not an assignment to a sub-field: the ones that leave the array where it
+        is (write with and without rescaling, update_header, change_scaling) and the ones that give the object a new array
+        (add / remove extra dimensions, resize). Objects over a mapped file are left out."""
+        rng = self.rng
+        recs = [k for k in self.records() if self.ow.objs[k]["buf"] != 0]          # (memory 0 = the points of the file, mapped)
+        if on is None:
+            if not recs:
+                return False
+            lases = [k for k in recs if self.ow.is_las[k]]
+            on = rng.choice(lases) if lases and rng.random() < 0.6 else rng.choice(recs)
+        e = self.ow.objs[on]
+        las = self.ow.is_las[on]
+        fmt = self.ow.fmt_of(e)
+        if how is None:
+            r = rng.random()
+            how = ("extradims" if las and r < 0.25 and on not in self.tainted and e["origin"] != "rest" else
+                   "resize" if r < 0.35 and on not in self.has_buffer else rng.choice(self.TOUCH_LAS if las else ["writer", "writer", "writer_fail", "writer_point"]))
+        if how == "extradims":
+            ex = extras_of(fmt)
+            st = {"s": "extradims", "on": on}
+            if ex and rng.random() < 0.4:
+                st["remove"] = [x[0] for x in rng.sample(ex, rng.choice([1, 1, min(2, len(ex))]))]
+            if "remove" not in st or rng.random() < 0.3:
+                have = [x[0] for x in ex if x[0] not in st.get("remove", [])]
+                st["add"] = [list(x) for x in gen_extras(rng, base_fmt(fmt)) if x[0] not in have and x[0] not in st.get("remove", [])][:rng.choice([1, 1, 2])]
+                if not st["add"]:
+                    del st["add"]
+            if rng.random() < 0.5:
+                st["single"] = True
+            if "add" not in st and "remove" not in st:
+                return False
+            self.add(st)
+        elif how == "resize":
+            n = len(e["pos"])
+            self.add({"s": "resize", "on": on, "n": rng.choice([n, n + 1, n + 3, max(0, n - 1), n // 2, 0])})
+        else:
+            self.add({"s": "touch", "on": on, "how": how, "k": [rng.choice([1, 3, -2, 5, 0]) for _ in range(3)]})
+        return True
+
     def op(self, on=None):
         rng = self.rng
         views = [k for k, e in self.ow.objs.items() if "field" in e]
-        if on is None and views and rng.random() < 0.25:
-            v = rng.choice(views)
+        if (on is None and views and rng.random() < 0.25) or on in views:
+            v = on if on in views else rng.choice(views)
             e = self.ow.objs[v]
             L = len(e["pos"])
             maxv = e["mask"] >> lsb_of(e["mask"])
@@ -2253,7 +2670,11 @@ class WorldGen:
         elif r < 0.88:
             op = gen_copy_op(rng, fmt, L)
         else:
-            others = [k for k in self.records() if self.ow.objs[k] is not e]
+            # (two mappings of one file with EXTRA dimensions are not copied onto each other: copy_fields_from hands numpy
+            # the source's extra bytes without copying them, numpy cannot see that two mappings overlap, and what the extra
+            # bytes then hold is not this property's subject - reported as an observation)
+            others = [k for k in self.records() if self.ow.objs[k] is not e
+                      and not (e["buf"] == 0 and self.ow.objs[k]["buf"] == 0 and extras_of(fmt))]
             if others:
                 self.add({"s": "copyfrom", "on": a, "src": rng.choice(others)})
                 return
@@ -2272,6 +2693,8 @@ def gen_world(rng):
             g.derive()
         elif r < 0.42 and g.ow.readers:
             g.chunk()
+        elif 0.45 <= r < 0.57 and g.records():
+            g.touch()
         elif r < 0.45 and len(g.ow.objs) > 1:
             k = rng.choice(sorted(g.ow.objs))
             if g.ow.objs[k]["origin"] != "mmap" and k not in g.has_buffer and sum(1 for kk, ee in g.ow.objs.items() if ee is g.ow.objs[k]) == 1:
@@ -2290,7 +2713,7 @@ def pattern_worlds(rng):
         tab, _ = fmt_table(fmt)
         for src in SOURCES:
             size = rng.choice([1, 2, 3, 4])
-            g = WorldGen(rng, fmt, size * rng.choice([2, 3]) + rng.choice([0, 0, 1]))
+            g = WorldGen(rng, gen_layout(rng, fmt, 0.25), size * rng.choice([2, 3]) + rng.choice([0, 0, 1]))
             g.add({"s": "reader", "id": "r1", "src": src, "via": rng.choice(["open", "ctor"])})
             how = rng.choice(["iter", "read_points"])
             while g.ow.readers["r1"]["cur"] < g.n:
@@ -2300,7 +2723,7 @@ def pattern_worlds(rng):
             for a in ids[:3]:
                 g.op(on=a)
             out.append(g.session())
-        g = WorldGen(rng, fmt)
+        g = WorldGen(rng, gen_layout(rng, fmt, 0.3))
         g.add({"s": "mem", "id": "o0", "host": rng.choice(HOSTS)})
         g.k = 1
         L = g.n
@@ -2308,13 +2731,13 @@ def pattern_worlds(rng):
         g.add({"s": "fancy", "id": g.new_id(), "of": "o0", "key": {"k": "mask", "v": [i % 2 == 0 for i in range(L)]}})
         g.add({"s": "copy", "id": g.new_id(), "of": "o0"})
         g.add({"s": "wrap", "id": g.new_id(), "of": "o0", "as": rng.choice(["packed", "scaled", "las"])})
-        g.add({"s": "convert", "id": g.new_id(), "of": "o0", "to": fmt, "how": "from_point_record"})
+        g.add({"s": "convert", "id": g.new_id(), "of": "o0", "to": g.fmt, "how": "from_point_record"})
         for host in ("packed", "las"):
             g.add({"s": "zeros", "id": g.new_id(), "host": host, "n": g.n})
         for a in list(g.records()):
             g.op(on=a)
         out.append(g.session())
-        g = WorldGen(rng, fmt)
+        g = WorldGen(rng, gen_layout(rng, fmt, 0.3))
         g.maps = True
         g.add({"s": "mmap", "id": "o0"})
         g.k = 1
@@ -2325,6 +2748,47 @@ def pattern_worlds(rng):
             g.op(on=a)
         g.add({"s": "read", "id": g.new_id(), "src": "fileobj", "via": "open"})
         out.append(g.session())
+    return out
+
+
+def kept_worlds(rng, thorough=False):
+    """round 6: what was taken from a LasData EARLIER (sub-field views through every path, a slice of its record, a slice of
+    the LasData) across every operation in between that is not an assignment: after each of them an assignment through each
+    kept handle (it must reach the LasData where the unchanged code keeps the array in place, and must not where the LasData got
+    a new record), then an assignment on the LasData itself (the kept handles read it)"""
+    out = []
+    for base in range(11):
+        for host in (["las"] if not thorough else ["las", "las"]):
+            g = WorldGen(rng, gen_layout(rng, base, 0.4))
+            g.add({"s": "mem", "id": "o0", "host": host})
+            g.k = 1
+            tab, _ = fmt_table(base)
+            names = rng.sample([nm for nm, _, _ in tab], 2)
+            handles = []
+            for nm in names:
+                paths = ["item", "attr", "points_item", "points_attr"] + (["old", "old_attr"] if nm in OLD_NAMES else [])
+                vid = g.new_id()
+                g.add({"s": "hold", "id": vid, "of": "o0", "field": nm, "path": rng.choice(paths), "chain": [] if rng.random() < 0.6 else [gen_slice(rng, g.n)]})
+                handles.append(vid)
+            sid = g.new_id()
+            g.add({"s": "slice", "id": sid, "of": "o0", "v": rng.choice([[None, None, None], [None, None, 2], [None, None, -1], [1, None, None]])})
+            handles.append(sid)
+            hows = list(WorldGen.TOUCH_LAS[:5] + WorldGen.TOUCH_LAS[6:]) + ["resize", "extradims"]
+            if not thorough:
+                hows = ["write_offsets", "writer"] + rng.sample(hows, 3)
+            else:
+                rng.shuffle(hows)
+            for how in hows:
+                if not g.touch(on="o0", how=how):
+                    continue
+                for h in handles:
+                    g.op(on=h)
+                g.op(on="o0")
+                if how in ("resize", "extradims"):                 # the handles taken now are attached again
+                    vid = g.new_id()
+                    g.add({"s": "hold", "id": vid, "of": "o0", "field": rng.choice(names), "path": "attr", "chain": []})
+                    handles = handles[-2:] + [vid]
+            out.append(g.session())
     return out
 
 
@@ -2353,7 +2817,7 @@ _WORLD_FAILS = []
 
 def correspond_worlds(ctx):
     """worlds on the implementation, on the property (failures kept for `search`) and on the model (wrun)"""
-    worlds = pattern_worlds(ctx.rng) + [gen_world(ctx.rng) for _ in range(ctx.n(450, 8000))]
+    worlds = pattern_worlds(ctx.rng) + kept_worlds(ctx.rng, ctx.thorough()) + [gen_world(ctx.rng) for _ in range(ctx.n(450, 8000))]
     kept = []
     _WORLD_FAILS.extend(world_failures(worlds, ctx, kept))
     cmds = ["sf_world " + ";".join(trace[-1][5][:trace[-1][3] + 1] if trace[-1][3] is not None else trace[-1][5])
@@ -2387,11 +2851,11 @@ def correspond_worlds(ctx):
     return dis
 
 
-def oracle_element(fmt, name, composed, m, v, rng):
+def oracle_element(fmt, name, composed, m, v, rng, clash=None):
     """property on the implementation, no model involved"""
     lsb = (m & -m).bit_length() - 1
     maxv = m >> lsb
-    im = impl_column(fmt, name, composed, v, rng)
+    im = impl_column(fmt, name, composed, v, rng, clash)
     if 0 <= v <= maxv:
         if im[0] != "ok":
             return f"in-range value {v} refused ({im[1]})"
@@ -2416,7 +2880,8 @@ def oracle_special(rng, only=None):
     """aliasing and empty-selection cases of the property, on the implementation. Every operation in them is one the
     property requires to succeed (or to raise OverflowError where stated): any other exception is a failing input."""
     out = []
-    for fmt, name, composed, m in sub_fields():
+    for fmt, name, composed, m in [(lf, nm, c, m) for f, nm, c, m in sub_fields() for lf in (f, layout(f, [(nm, "uint16", False)]))]:
+        # (every case also on the layout that has an extra dimension named like the sub-field)
         if only is not None and (fmt, name) != only:
             continue
         try:
@@ -2453,7 +2918,7 @@ def _special_checks(out, fmt, name, composed, m, rng):
             raw0[f].tobytes() == rec.array[f].tobytes() for f in raw0.dtype.names if f != composed) or np.any((raw0[composed] ^ rec.array[composed]) & ~np.uint8(m)):
         out.append((f"shifted self-assignment {name}", {"format": fmt, "field": name}, f"{name}[1:] = {name}[:-1] gave {np.array(rec[name]).tolist()} from {vals.tolist()}"))
     for sfmt_, sname, scomp, sm in sub_fields():
-        if sfmt_ == fmt and scomp == composed and sname != name and (sm >> ((sm & -sm).bit_length() - 1)) <= maxv:
+        if sfmt_ == base_fmt(fmt) and scomp == composed and sname != name and (sm >> ((sm & -sm).bit_length() - 1)) <= maxv:
             rec = fresh_record(fmt, rng, n); svals = np.array(rec[sname]).copy()
             rec[name][:] = rec[sname]
             if np.array(rec[name]).tolist() != svals.tolist() or np.array(rec[sname]).tolist() != svals.tolist():
@@ -2493,7 +2958,7 @@ def _special_checks(out, fmt, name, composed, m, rng):
         out.append((f"list-of-names out-of-range {name}", {"format": fmt, "field": name}, f"raised {type(ex).__name__}"))
     # every OTHER sub-field of the format, read by name, keeps its values (two fields sharing a bit would fail here)
     rec = fresh_record(fmt, rng, 64)
-    others = {o[1]: np.array(rec[o[1]]).copy() for o in sub_fields() if o[0] == fmt and o[1] != name}
+    others = {o[1]: np.array(rec[o[1]]).copy() for o in sub_fields() if o[0] == base_fmt(fmt) and o[1] != name}
     rec[name][:] = np.array([rng.randrange(maxv + 1) for _ in range(64)])
     for on, ov in others.items():
         if not np.array_equal(np.array(rec[on]), ov):
@@ -2543,7 +3008,7 @@ def search_sessions(ctx):
 
 def search_worlds(ctx):
     """the property across objects on fresh worlds (also when the model could not be built); assignments that break it first"""
-    fails = _WORLD_FAILS + world_failures(pattern_worlds(ctx.rng) + [gen_world(ctx.rng) for _ in range(ctx.n(200, 4000))])
+    fails = _WORLD_FAILS + world_failures(pattern_worlds(ctx.rng) + kept_worlds(ctx.rng, ctx.thorough()) + [gen_world(ctx.rng) for _ in range(ctx.n(200, 4000))])
     fails.sort(key=lambda f: 0 if f["input"]["steps"][-1]["s"] in ("op", "copyfrom", "vset") else 1)
     out, seen = [], set()
     for f in fails:
@@ -2588,7 +3053,7 @@ def search(ctx, seeds):
                 kind = f"assign {name} value {'negative' if v < 0 else 'too large' if v > (m >> ((m & -m).bit_length() - 1)) else 'in range'}"
                 if kind not in seen:
                     seen.add(kind)
-                    failing.append({"kind": kind, "input": {"format": fmt, "field": name, "value": v}, "observed": why})
+                    failing.append({"kind": kind, "input": {"format": fmt, "field": name, "value": v, "extra_dimension_named_like_it": v % 4 == 1}, "observed": why})
     return failing[:12]
 
 
@@ -2613,6 +3078,6 @@ def replay(ctx, data):
             print("not reproduced")
         return 1 if fails else 0
     sf = [s for s in sub_fields() if s[0] == inp["format"] and s[1] == inp["field"]][0]
-    why = oracle_element(sf[0], sf[1], sf[2], sf[3], inp["value"], ctx.rng)
+    why = oracle_element(sf[0], sf[1], sf[2], sf[3], inp["value"], ctx.rng, inp.get("extra_dimension_named_like_it"))
     print("REPRODUCED: " + why if why else "not reproduced")
     return 1 if why else 0
